@@ -103,6 +103,26 @@ func runC05() {
 	interpgen.BigNumSweep(func(p *interpgen.Program) { emit(p) })
 	interpgen.Limits(func(p *interpgen.Program) { emit(p) }, c.Thorough())
 	interpgen.ScriptBoundary(func(p *interpgen.Program) { emit(p) })
+	// two value-producing opcodes in one execution (what one leaves behind must not influence the other):
+	// ordered pairs of the 42 snippets of the aliasing matrix, the same opcode twice always
+	for i, t1 := range transforms {
+		for j, t2 := range transforms {
+			if !c.Thorough() && i != j && (i*len(transforms)+j)%4 != int(c.Seed%4) && !(i >= 9 && i <= 13 && j >= 9 && j <= 13) {
+				continue
+			}
+			x, y := twinValues[(i+j)%len(twinValues)], twinValues[(i*5+j*3+2)%len(twinValues)]
+			body := cat(interpgen.Push(x), t1.code, interpgen.Push(y), t2.code)
+			fl := uint32(0)
+			if (i+j)%2 == 0 {
+				fl = interpgen.FGenesis
+			}
+			p := &interpgen.Program{Unlock: []byte{}, Lock: cat(body, []byte{0x74, 0x75, 0x51}), Flags: fl, Kind: "pair/" + t1.name + "/" + t2.name}
+			if (i+j)%5 == 0 { // split over the two scripts
+				p.Unlock, p.Lock = cat(interpgen.Push(x), t1.code), cat(interpgen.Push(y), t2.code, []byte{0x74, 0x75, 0x51})
+			}
+			emit(p.Fix())
+		}
+	}
 	nFlow := 1500
 	if c.Thorough() {
 		nFlow = 40000
@@ -143,7 +163,7 @@ func runC05() {
 	c.Stats.Extra["node_vectors_skipped_signature_ops"] = skipped
 	c.Stats.Extra["node_vectors_used"] = used
 	c.Stats.Extra["node_vectors_impl_agrees"] = agree
-	c.Stats.Rule = "targeted families: big-number operand sweep (index/position/size/count opcodes x numbers around 2^31, 2^32, 2^63, 2^64, 2^72 and their negatives), programs sitting on every pre-Genesis limit (op count with executed and with skipped opcodes, stack depth incl. alt stack, element size via push/CAT/NUM2BIN, script size, number length) in both eras, 1120 script-boundary programs (what the unlocking script leaves on the alt stack / in conditionals when it ends normally or with a top-level OP_RETURN, zero-length scripts), 1500 flow-control programs (IF/NOTIF/ELSE/ENDIF/RETURN/VERIF/alt-stack alphabet split between unlocking and locking script); then: opcode x edge-operand matrix (31 operands; all unary opcodes and all shift counts 0..8n+1 for n in {0,1,2,3,8} always; binary/ternary combinations every 131st in quick, every 7th in thorough; 8 flag sets over both eras), grammar-generated programs over the full opcode alphabet with nested IF/NOTIF/ELSE/ENDIF, OP_RETURN placement, tx contexts for CLTV/CSV, P2SH pairs, and the signature-free node vectors of script_tests.json (evaluated on the model AND compared with the node's expected verdict). distinct = distinct (scripts, flags, context); non-trivial = at least one instruction completed"
+	c.Stats.Rule = "targeted families: big-number operand sweep (index/position/size/count opcodes x numbers around 2^31, 2^32, 2^63, 2^64, 2^72 and their negatives), programs sitting on every pre-Genesis limit (op count with executed and with skipped opcodes, stack depth incl. alt stack, element size via push/CAT/NUM2BIN, script size, number length) in both eras, ordered pairs of 42 value-producing snippets in one execution (same opcode twice and hash x hash always, a quarter of the rest per seed), 1120 script-boundary programs (what the unlocking script leaves on the alt stack / in conditionals when it ends normally or with a top-level OP_RETURN, zero-length scripts), 1500 flow-control programs (IF/NOTIF/ELSE/ENDIF/RETURN/VERIF/alt-stack alphabet split between unlocking and locking script); then: opcode x edge-operand matrix (31 operands; all unary opcodes and all shift counts 0..8n+1 for n in {0,1,2,3,8} always; binary/ternary combinations every 131st in quick, every 7th in thorough; 8 flag sets over both eras), grammar-generated programs over the full opcode alphabet with nested IF/NOTIF/ELSE/ENDIF, OP_RETURN placement, tx contexts for CLTV/CSV, P2SH pairs, and the signature-free node vectors of script_tests.json (evaluated on the model AND compared with the node's expected verdict). distinct = distinct (scripts, flags, context); non-trivial = at least one instruction completed"
 }
 
 // opcode arity table for the frame check: how many items of the data stack an opcode may touch
